@@ -517,6 +517,33 @@ fn declare(
 			};
 			unsafe { LLVMSetLinkage(function, linkage) };
 
+			if flags.contains(DeclarationFlag::External)
+			{
+				// The C ABI wants integer arguments narrower than 32 bits
+				// to be sign or zero extended by the caller.
+				for (i, parameter) in parameters.iter().enumerate()
+				{
+					let name = match &parameter.value_type
+					{
+						ValueType::Int8 | ValueType::Int16 => "signext",
+						ValueType::Uint8 | ValueType::Uint16 => "zeroext",
+						_ => continue,
+					};
+					unsafe {
+						let kind = LLVMGetEnumAttributeKindForName(
+							name.as_ptr() as *const ::libc::c_char,
+							name.len(),
+						);
+						let attribute =
+							LLVMCreateEnumAttribute(llvm.context, kind, 0);
+						LLVMAddAttributeAtIndex(
+							function,
+							(i + 1) as u32,
+							attribute,
+						);
+					}
+				}
+			}
 			let callconv = if flags.contains(DeclarationFlag::External)
 			{
 				LLVMCallConv::LLVMCCallConv
